@@ -36,7 +36,8 @@ func zzActive(created, deleted, t int64) bool {
 func ZZVerifC10History() {
 	db := NewDB()
 	n := rt.IntRange("n", 1, rt.Param("N", 2))
-	var ref []zzVer
+	var ref []zzVer   // forward versions
+	var refIn []zzVer // reverse versions (one per link period: superseding a version does not touch it)
 	var clock int64 = 1
 	var maxCut int64
 	for step := 0; step < n; step++ {
@@ -46,7 +47,7 @@ func ZZVerifC10History() {
 		op := rt.IntRange("op", 0, 3)
 		switch op {
 		case 0: // link
-			k := zzKeys[rt.IntRange("key", 0, len(zzKeys)-1)]
+			k := zzKeys[rt.IntRange("key", 0, rt.Param("KEYS", 4)-1)]
 			w := rt.Float32("w")
 			rt.Assume(w == w)
 			p := rt.IntRange("props", 0, rt.Param("PROPS", 1))
@@ -57,6 +58,15 @@ func ZZVerifC10History() {
 					act = i
 				}
 			}
+			actIn := false
+			for i := range refIn {
+				if refIn[i].live && refIn[i].k == k && refIn[i].deleted == 0 {
+					actIn = true
+				}
+			}
+			if !actIn {
+				refIn = append(refIn, zzVer{k: k, created: ts, live: true})
+			}
 			if act >= 0 {
 				if ref[act].weight != w || ref[act].props != p {
 					ref[act].deleted = ts
@@ -66,7 +76,7 @@ func ZZVerifC10History() {
 				ref = append(ref, zzVer{k: k, created: ts, weight: w, props: p, live: true})
 			}
 		case 1: // soft unlink
-			k := zzKeys[rt.IntRange("key", 0, len(zzKeys)-1)]
+			k := zzKeys[rt.IntRange("key", 0, rt.Param("KEYS", 4)-1)]
 			db.RemoveEdge(k.src, k.dst, k.rel, false, ts)
 			for i := range ref {
 				if ref[i].live && ref[i].k == k && ref[i].deleted == 0 {
@@ -74,12 +84,23 @@ func ZZVerifC10History() {
 					break
 				}
 			}
+			for i := range refIn {
+				if refIn[i].live && refIn[i].k == k && refIn[i].deleted == 0 {
+					refIn[i].deleted = ts
+					break
+				}
+			}
 		case 2: // hard unlink
-			k := zzKeys[rt.IntRange("key", 0, len(zzKeys)-1)]
+			k := zzKeys[rt.IntRange("key", 0, rt.Param("KEYS", 4)-1)]
 			db.RemoveEdge(k.src, k.dst, k.rel, true, ts)
 			for i := range ref {
 				if ref[i].k == k {
 					ref[i].live = false
+				}
+			}
+			for i := range refIn {
+				if refIn[i].k == k {
+					refIn[i].live = false
 				}
 			}
 		case 3: // vacuum
@@ -94,16 +115,24 @@ func ZZVerifC10History() {
 				}
 			}
 			rt.Assert(removed == cnt, "vacuum: removes exactly the versions soft-deleted at or before the cutoff")
+			for i := range refIn {
+				if refIn[i].live && refIn[i].deleted != 0 && refIn[i].deleted <= cut {
+					refIn[i].live = false
+				}
+			}
 			if cut > maxCut {
 				maxCut = cut
 			}
 		}
 	}
 	// ---- read-out for one key at a symbolic time ----
-	k := zzKeys[rt.IntRange("qkey", 0, len(zzKeys)-1)]
+	k := zzKeys[rt.IntRange("qkey", 0, rt.Param("KEYS", 4)-1)]
 	t := rt.Int64("T")
-	rt.Assume(rt.Or(t == 0, t > maxCut)) // history at or before a vacuum cutoff is discarded by design
 	rt.Assume(t >= 0)
+	// forward and reverse lists keep different version granularity (a superseded forward version has no
+	// reverse counterpart), so after a vacuum the two views are only required to agree for "now" and for
+	// times after the cutoff; each view is compared with its own reference at every time
+	agreeT := rt.Or(t == 0, t > maxCut)
 	out, _ := db.GetOutEdges(k.src, k.rel, t)
 	in, _ := db.GetInEdges(k.dst, k.rel, t)
 	// reference: is there a version of k active at T, and which one
@@ -141,7 +170,14 @@ func ZZVerifC10History() {
 		}
 	}
 	rt.Assert(nIn <= 1, "in view: no duplicate sources at a single time")
-	rt.Assert((nIn == 1) == (nOut == 1), "forward and reverse views agree")
+	refInActive := false
+	for i := range refIn {
+		if refIn[i].live && refIn[i].k == k && zzActive(refIn[i].created, refIn[i].deleted, t) {
+			refInActive = true
+		}
+	}
+	rt.Assert((nIn == 1) == refInActive, "in view: exactly the sources the history says were linked at T (vacuum removes reverse entries soft-deleted at or before the cutoff, nothing else)")
+	rt.Assert(rt.Implies(agreeT, (nIn == 1) == (nOut == 1)), "forward and reverse views agree")
 	// current-relations listing agrees with the current view
 	if t == 0 {
 		rel := db.GetAllRelations(k.src, "out")
